@@ -58,6 +58,17 @@ Clauses(S, P, hasPrev, TauSet) ==   \* S = this solve's observation, P = previou
                        [e \in 1..Len(UD[j].e) |-> Flatten(DE(UD[j].e[e]))] # vecs[UD[j].i]}}
       c05f == (IF udMissing = {} THEN {} ELSE {<<"C05", "user-declared-item-not-sent-as-often-as-declared", CHOOSE i \in udMissing : TRUE>>})
               \cup (IF udAltered = {} THEN {} ELSE {<<"C05", "matrix-sent-differs-from-the-matrix-declared", CHOOSE i \in udAltered : TRUE>>})
+      \* the blocks of every point the user decomposed, as the partition's public accessor returned them: the
+      \* orthogonality of different blocks (of one point or of two points) is part of the declared model
+      PB == S.part_blocks
+      sentEq == {NormForm(DE(Items[S.sent[j]].e[1]), "eq") :
+                    j \in {q \in 1..Len(S.sent) : IsSc(S.sent[q]) /\ Items[S.sent[q]].sense = "eq"}}
+      orthMissing == {w \in (1..Len(PB)) \X (1..2) \X (1..Len(PB)) \X (1..2) :
+                        /\ w[1] <= w[3] /\ w[2] # w[4] /\ (w[1] = w[3] => w[2] < w[4])
+                        /\ LET nf == NormForm(Inner(ne, RV(PB[w[1]][w[2]]), RV(PB[w[3]][w[4]])), "eq")
+                           IN nf # <<"trivial">> /\ nf \notin sentEq}
+      c05g == IF orthMissing = {} THEN {}
+              ELSE {<<"C05", "orthogonality-of-declared-blocks-not-sent", Cardinality(orthMissing)>>}
       \* ---------------- C05: the native cvxpy problem denotes the sent list
       NatL == S.native
       msz == S.msizes
@@ -363,7 +374,7 @@ Clauses(S, P, hasPrev, TauSet) ==   \* S = this solve's observation, P = previou
               ELSE IF prev.np = np /\ NormSent(prev) # NormSent(S) THEN {<<"C11", "back-ends-were-sent-different-constraint-lists", 0>>} ELSE {}
       cXa == IF S.crash # "" THEN {<<"ALL", "solve-raises: " \o S.crash, 0>>} ELSE {}
       info == IF doCert THEN {<<"INFO", "max-identity-error", maxKeyErr>>} ELSE {}
-  IN info \cup cXa \cup c05a \cup c05b \cup c05c \cup c05d \cup c05e \cup c05f
+  IN info \cup cXa \cup c05a \cup c05b \cup c05c \cup c05d \cup c05e \cup c05f \cup c05g
      \cup c01a \cup c01b \cup c01c \cup c01d \cup c01e \cup c01f \cup c01g
      \cup c02a \cup c02b \cup c02c \cup c02d \cup c02e \cup c02f \cup c02g \cup c02h \cup c02i \cup c02j
      \cup c14a \cup c14b \cup c14c \cup c14d \cup c14e
